@@ -220,6 +220,24 @@ func runCase(t *testing.T, run *core.Run, name string, idx int, rng *rand.Rand) 
 			add("bitmap-padded-with-non-signers", false, q)
 		}
 	}
+	// 2b. the unused bits of the last bitmap byte (positions >= committee size, no validator behind them) set on a
+	// certificate whose real signers stay below the threshold: the aggregate signature still verifies
+	if nv := len(vs.ValidatorSet.ValidatorSet); nv%8 != 0 {
+		for bi, base := range []map[int]bool{below, maxBelow, minority} {
+			if base == nil {
+				continue
+			}
+			q := resign(clone(p.QC), pickOf(base))
+			bm := q.Signature.Bitmap
+			for i := nv; i < 8*len(bm); i++ {
+				// all unused bits, or exactly as many as there are non-signers (so that the count of set bits equals the committee size)
+				if bi%2 == 0 || i-nv < nv-len(base) {
+					bm[i/8] |= 1 << uint(i%8)
+				}
+			}
+			add("bitmap-unused-bits-set", false, q)
+		}
+	}
 	// 3. bitmap length
 	{
 		q := clone(honest)
